@@ -13,6 +13,8 @@ Items: 'fn:NAME' function definition | 'struct:NAME' struct NAME { .. }; | 'type
 typedef .. NAME; (incl. typedef struct { .. } NAME;) | 'macro:NAME' #define with continuation
 lines | 'var:NAME' file-scope variable definition.  Without a prefix the kinds are tried in that
 order.  An item that cannot be found raises SliceError (the check reports a harness ERROR).
+What the requested items use from the same file and nothing else declares - static functions,
+macros, struct/typedef definitions, static variables - is added transitively.
 """
 import os
 import re
@@ -141,7 +143,54 @@ _FINDERS = [('fn', _find_fn), ('struct', _find_struct), ('typedef', _find_typede
             ('macro', _find_macro), ('var', _find_var)]
 
 
-def slice_text(text, items, origin='<text>'):
+_C_WORDS = set('auto break case char const continue default do double else enum extern float for goto if '
+               'inline int long register restrict return short signed sizeof static struct switch typedef '
+               'union unsigned void volatile while NULL TRUE FALSE'.split())
+
+
+def _closure(text, mask, spans, stubs):
+    """Everything of the same file the sliced items depend on and nothing else declares:
+    static functions they call or mention, macros, struct/union/enum definitions, typedefs
+    and static variables defined in the file.  A refactoring that adds a call to a static
+    helper therefore does not break the harness.  `stubs`: names the harness defines itself."""
+    done = set(name for _, _, _, name in spans)
+    done.update(stubs)
+    work = list(spans)
+    while work:
+        start, end, _kind, _name = work.pop()
+        body = mask[start:end]
+        tagged = set(re.findall(r'\b(?:struct|union|enum)\s+(\w+)', body))
+        for ident in sorted(set(re.findall(r'\b[A-Za-z_]\w*\b', body)) - _C_WORDS):
+            if ident in done:
+                continue
+            found = None
+            fn = _find_fn(text, mask, ident)
+            if fn and re.search(r'\bstatic\b', mask[fn[0]:mask.index(ident, fn[0])]):
+                found = (fn[0], fn[1], 'fn', ident)
+            if not found and ident in tagged:
+                sp = _find_struct(text, mask, ident)
+                if sp:
+                    found = (sp[0], sp[1], 'struct', ident)
+            if not found:
+                sp = _find_macro(text, mask, ident)
+                if sp:
+                    found = (sp[0], sp[1], 'macro', ident)
+            if not found:
+                sp = _find_typedef(text, mask, ident)
+                if sp:
+                    found = (sp[0], sp[1], 'typedef', ident)
+            if not found:
+                m = re.search(r'(?m)^static\b[^;{}()\n]*\b%s\b[^;{}()]*;' % re.escape(ident), mask)
+                if m:
+                    found = (_line_start(text, m.start()), _line_end(text, m.end() - 1), 'var', ident)
+            done.add(ident)
+            if found and not any(a <= found[0] < b for a, b, _, _ in spans):
+                spans.append(found)
+                work.append(found)
+    return spans
+
+
+def slice_text(text, items, origin='<text>', stubs=(), transitive=True):
     """-> (generated text, [(kind, name, first line, last line)]) in source order."""
     mask = _code_mask(text)
     found = []
@@ -158,6 +207,8 @@ def slice_text(text, items, origin='<text>'):
         if not span:
             raise SliceError('%s: no %s named %s' % (origin, kind or 'definition', name))
         found.append((span[0], span[1], kind_found, name))
+    if transitive:
+        found = _closure(text, mask, found, stubs)
     found.sort()
     out, report, last_end = [], [], -1
     for start, end, kind, name in found:
@@ -174,14 +225,16 @@ def slice_text(text, items, origin='<text>'):
     return ''.join(out), report
 
 
-def write_slice(src_path, items, out_path):
-    """Slice src_path into out_path; returns the report list of slice_text."""
+def write_slice(src_path, items, out_path, stubs=()):
+    """Slice src_path into out_path (requested items plus, transitively, the static functions,
+    macros, types and static variables of the same file they use, except `stubs`, which the
+    harness defines itself); returns the report list of slice_text."""
     try:
         with open(src_path) as f:
             text = f.read()
     except OSError as e:
         raise SliceError('cannot read %s: %s' % (src_path, e))
-    gen, report = slice_text(text, items, src_path)
+    gen, report = slice_text(text, items, src_path, stubs)
     os.makedirs(os.path.dirname(out_path), exist_ok=True)
     with open(out_path, 'w') as f:
         f.write('/* generated by vlib/llsym/slice.py from %s - verbatim copies, do not edit */\n\n' % src_path)
